@@ -236,6 +236,16 @@ def _find_declarations(stmts):
     return found
 
 
+def _simple_index(slc):
+    """Whether the index can be evaluated twice (a constant, a name, a:b)."""
+    if isinstance(slc, ast.Slice):
+        return all(
+            part is None or _simple_index(part)
+            for part in (slc.lower, slc.upper, slc.step)
+        )
+    return isinstance(slc, (ast.Constant, ast.Name))
+
+
 def _forget(node, *syms):
     """Delete temporary variables, so that they do not keep objects alive."""
     return ast.copy_location(
@@ -565,7 +575,7 @@ class PteraTransformer(NodeTransformer):
             if (
                 not expression
                 and isinstance(slc, ast.expr)
-                and not isinstance(slc, (ast.Constant, ast.Name, ast.Slice))
+                and not _simple_index(slc)
                 and self.should_instrument(target.value.id, ann)
             ):
                 # The index is needed twice (for the key and for the store):
